@@ -120,9 +120,32 @@ mod value;
 #[cfg(grass_verif)]
 pub mod verif;
 
+/// Spans computed while re-parsing evaluated text (for example a selector that
+/// contained an escape) are offsets into that text, not into the source, so
+/// they can begin or end inside a multi-byte character of the source. Looking
+/// such a span up would panic; widen it to the enclosing character boundaries.
+fn snap_to_char_boundaries(map: &CodeMap, span: codemap::Span) -> codemap::Span {
+    let file = map.find_file(span.low());
+    let source = file.source();
+    let base = file.span.low();
+    let mut low = (span.low() - base) as usize;
+    let mut high = ((span.high() - base) as usize).min(source.len());
+    while low > 0 && !source.is_char_boundary(low) {
+        low -= 1;
+    }
+    while high < source.len() && !source.is_char_boundary(high) {
+        high += 1;
+    }
+    file.span.subspan(low as u64, high as u64)
+}
+
 fn raw_to_parse_error(map: &CodeMap, err: Error, unicode: bool) -> Box<Error> {
     match err.raw() {
-        Ok((message, span)) => Box::new(Error::from_loc(message, map.look_up_span(span), unicode)),
+        Ok((message, span)) => Box::new(Error::from_loc(
+            message,
+            map.look_up_span(snap_to_char_boundaries(map, span)),
+            unicode,
+        )),
         Err(err) => Box::new(err),
     }
 }
